@@ -162,7 +162,22 @@ fn case_text(cx: &mut Ctx, i: u64, examples: &[(String, String)]) -> (String, &'
                 s.push_str(&format!("    const W{k}: {} = {};\n", render_ty(&t), render_val_dec(&v)));
             }
             s.push_str("}\n");
-            (mutate_text(&s, &mut rng), "module")
+            // module-level shapes that no token edit produces: the module (or the other one) a
+            // second time in various layouts, a program around it, a foreign module, no body
+            let other = if s.starts_with("mod witness") { s.replacen("mod witness", "mod param", 1) } else { s.replacen("mod param", "mod witness", 1) };
+            let s = match rng.below(12) {
+                0 => format!("{s}{s}"),
+                1 => format!("{}{s}", s.trim_end()),                      // `} mod ..` on one line
+                2 => format!("{} /* again */ {s}", s.trim_end()),
+                3 => format!("{s}\n\n    {s}"),
+                4 => format!("{s}{other}"),
+                5 => format!("{other}{s}fn main() {{\n}}\n"),
+                6 => format!("mod other {{\n    const A: u8 = 1;\n}}\n{s}"),
+                7 => s.replace(" {\n", " {").replace("\n}", "}"),
+                8 => format!("{}{}", s.trim_end(), s.replace('\n', " ")),
+                _ => s,
+            };
+            (if rng.chance(1, 3) { s } else { mutate_text(&s, &mut rng) }, "module")
         }
         6 => {
             // JSON file
